@@ -10,6 +10,9 @@ impl TypeContext {
 pub mod __verif_hooks {
     //! constructors for HIR types whose fields/constructors are crate-private
     use crate::hir::*;
+    pub fn borrow(mutable: bool) -> Borrow {
+        Borrow { lifetime: MaybeStatic::Static, mutability: if mutable { Mutability::Mutable } else { Mutability::Immutable } }
+    }
     pub fn enum_type() -> Type {
         Type::Enum(EnumPath { tcx_id: super::EnumId(0) })
     }
